@@ -119,7 +119,8 @@ def run(tier, seed):
                                     'encoding': r['enc'], 'reference_model': r['spec']}, {'kind': 'api', 'history': h, 'step': i})
                     break
     ex = excluded()
-    vs = VERSIONS if tier != 'quick' else sorted(rng.sample(VERSIONS, 3))
+    vs0 = [v for v in VERSIONS if v != '2.1']       # v2.1: group rows with None references make Message() crash (finding D2, claimed under C15)
+    vs = vs0 if tier != 'quick' else sorted(rng.sample(vs0, 3))
     cases = []
     for v in vs:
         cases += chain_cases(rng, v, 40 if tier != 'quick' else 10, 12 if tier != 'quick' else 6, ex)
@@ -144,7 +145,7 @@ def run(tier, seed):
                 'the previous link, no traversal pointer left, nothing left in the shadow index) plus the content of the assigned element, and the message must '
                 'encode the value at the position the tables define. Low level: the traversal-parent setter and set_parent_to_traversal() inside random histories. '
                 'Non-trivial = distinct chains / states.')
-    chk.assumptions = ['TOLERANT validation for the chain harness', 'structures that repeat a child name inside one parent are skipped (finding D17)', 'guard-listed segments skipped']
+    chk.assumptions = ['TOLERANT validation for the chain harness', 'v2.1 left out of the chain harness (malformed group rows, finding D2)', 'structures that repeat a child name inside one parent are skipped (finding D17)', 'guard-listed segments skipped']
     chk.samples = [{'chain': [c['structure']] + c['groups'] + [c['segment'], c['field'], c['component'], c['sub']], 'result': o[:40]} for c, o in list(zip(cases, outs))[:8]]
     return chk.finish()
 
